@@ -238,6 +238,12 @@ OnPoll(s, e) ==
         \o (IF EffectiveInterruptPossible(o)
             THEN If(C08_Returns(idle, FALSE, InFlight(o)), "C08", "interrupted call neither returns nor is woken")
             ELSE <<>>)
+        \o (IF R.failed # {}
+            THEN If(C07_Returns(idle, FALSE, InFlight(o)), "C07", "call with failed functions neither returns nor is woken")
+            ELSE <<>>)
+        \o (IF IsConcurrent(o) /\ o.limit >= 1
+            THEN If(C10_Completes(idle, FALSE, InFlight(o)), "C10", "limited call neither returns nor is woken")
+            ELSE <<>>)
         \o (IF idle /\ C06_Applies(o)
             THEN If(C06_Eager(s.n, EdgesInto(s, o.order, (1..s.n) \ Range(R.started)), o.order, Range(R.started), R.ended),
                     "C06", "idle with a startable function")
@@ -290,7 +296,11 @@ OnSpoll(s, e) ==
           \o If(~R0.intSeen, "C08", "stream did not end right after the Interrupted item")
           \o If(~R0.sEnded, "C05", "pending after the stream ended")
           \o If(C05_NoStall(s.n, EdgesInto(s, o0.order, (1..s.n) \ yielded), o0.order, yielded, R0.ended, e.woken),
-                "C05", "pending, unblocked function, no wake-up") ]
+                "C05", "pending, unblocked function, no wake-up")
+          \o (IF C06_StreamApplies(o0)
+              THEN If(C06_StreamEager(s.n, EdgesInto(s, o0.order, (1..s.n) \ yielded), o0.order, yielded, R0.ended, e.woken),
+                      "C06", "stream idle with a function whose predecessors have all returned")
+              ELSE <<>>) ]
   ELSE
     LET R == [R0 EXCEPT !.pendingOpen = FALSE, !.sEnded = TRUE, !.returned = TRUE] IN
     [ st |-> SetRun(s, r, LogIf(s, R, e)),
@@ -305,6 +315,11 @@ OnDropRef(s, e) ==
     v  |-> IF R0.pendingOpen /\ ~R0.sEnded /\ ~R0.aborted
            THEN If(C05_NoStall(s.n, EdgesInto(s, o0.order, (1..s.n) \ Range(R.started)), o0.order, Range(R.started), R.ended, e.woken),
                    "C05", "FnRef dropped, function unblocked, no wake-up")
+             \o (IF C06_StreamApplies(o0)
+                 THEN If(C06_StreamEager(s.n, EdgesInto(s, o0.order, (1..s.n) \ Range(R.started)), o0.order, Range(R.started),
+                                         R.ended, e.woken),
+                         "C06", "stream idle after an FnRef drop with a function whose predecessors have all returned")
+                 ELSE <<>>)
            ELSE <<>> ]
 
 (* The callbacks of the interruptibility state (not a listed property: a mismatch with IStreamMC!Inv_Callbacks *)
